@@ -668,8 +668,8 @@ func allTypes() []*typeDesc {
 			}
 			panic("hashout")
 		},
-		trigger: func(v interface{}) string {
-			if len(v.(crypto.HashOutput).Out) == 0 {
+		trigger: func(v interface{}, field string) string {
+			if field == "error" && len(v.(crypto.HashOutput).Out) == 0 {
 				return "empty-output"
 			}
 			return ""
@@ -747,8 +747,8 @@ func allTypes() []*typeDesc {
 			}
 			panic("unstyled")
 		},
-		trigger: func(v interface{}) string {
-			if !v.(styling.Unstyled).Value {
+		trigger: func(v interface{}, field string) string {
+			if field == "value" && !v.(styling.Unstyled).Value {
 				return "false-written-as-present"
 			}
 			return ""
@@ -827,12 +827,12 @@ func allTypes() []*typeDesc {
 		},
 		oracle: func(v interface{}, o *orTab) { o.tfmt(lZoneNano, v.(*file.Meta).Date) },
 		timeOK: func(v interface{}) bool { return timeInRange(v.(*file.Meta).Date) },
-		trigger: func(v interface{}) string {
+		trigger: func(v interface{}, field string) string {
 			m := v.(*file.Meta)
-			if m.Hash.Hash != 0 && len(m.Hash.Out) == 0 {
+			if field == "error" && m.Hash.Hash != 0 && len(m.Hash.Out) == 0 {
 				return "empty-hash-output"
 			}
-			if _, off := m.Date.Zone(); off%60 != 0 {
+			if _, off := m.Date.Zone(); field == "Date" && off%60 != 0 {
 				return "zone-offset-seconds"
 			}
 			return ""
